@@ -937,7 +937,7 @@ MANIFEST = {
     'level_note': 'The guards exclude more than the findings they are named after: guard_C01_par_order every ParallelChannelPT below '
                   'a transformation node (also when the outer node leaves its channels alone), guard_C01_tables also zero-length '
                   'linear entries, FunctionPT of non-positive duration and triple final time points outside time reversal. '
-                  'C01_denotes_relative / C01_compositional / C01_compositional2 / C01_emission / C01_junctions are lemma-level '
+                  'C01_denotes_relative_partial / C01_compositional / C01_compositional2 / C01_emission / C01_junctions are lemma-level '
                   '(semantic hypotheses, discharged inside C01_denotes). Inputs flagged table-final-triple are excused from both '
                   'oracles. '
                   '_partial: C01_sampling_partial assumes that to_waveform succeeds (guaranteed by qupulse constructors '
